@@ -8,6 +8,8 @@ package workceptor
 //   VERIF_CRASH=name:n       the process kills itself (SIGKILL) the n-th time it reaches the
 //                            crash point called name
 //   VERIF_CRASH_LOG=file     every crash point reached is appended to file (pid, name)
+//   VERIF_CRASH_ROLE=r       VERIF_CRASH applies only to the daemon (r = daemon) or only to the
+//                            detached command runner (r = runner), which inherits the environment
 //   VERIF_STATUS_LOG=file    every status record rewrite is appended to file as one JSON line
 
 import (
@@ -34,6 +36,17 @@ func verifAppend(file string, line string) {
 	_ = f.Close()
 }
 
+// verifRole tells the daemon from the detached command runner (receptor --command-runner ...).
+func verifRole() string {
+	for _, a := range os.Args {
+		if a == "--command-runner" {
+			return "runner"
+		}
+	}
+
+	return "daemon"
+}
+
 func verifCrashPoint(name string) {
 	verifMu.Lock()
 	verifCounts[name]++
@@ -44,6 +57,9 @@ func verifCrashPoint(name string) {
 	}
 	spec := os.Getenv("VERIF_CRASH")
 	if spec == "" {
+		return
+	}
+	if role := os.Getenv("VERIF_CRASH_ROLE"); role != "" && role != verifRole() {
 		return
 	}
 	i := strings.LastIndex(spec, ":")
